@@ -355,6 +355,7 @@ struct SetAdapter {
             // check the iterator against the target set
             res.hasIt = true; res.itEnd = (it == tgt.end()); res.itValid = res.itEnd || designates(tgt, it, res.itVal);
             res.nodeEmptyAfterInsert = nh.empty();
+            if (!nh.empty()) res.reads.push_back(val_of(nh.value()));
             res.bits = 1;  // hinted form: no 'inserted' flag
           } else {
             G.armed = true; auto r = tgt.insert(std::move(nh)); G.armed = false;
